@@ -12,6 +12,7 @@ import (
 	"io"
 	"net"
 	"os"
+	"strings"
 	"sync"
 	"sync/atomic"
 	"time"
@@ -785,6 +786,23 @@ func createdID(batches []*etcdserverpb.WatchResponse, nth int) (int64, bool) {
 	return 0, false
 }
 
+// claims of validity (Model/C16Cases.v c16_validb): a claimed case that the Coq side finds invalid fails the check
+var nClaimed, nUnclaimed, nListed int
+
+func vcase(claimed bool, coq string) string {
+	if claimed {
+		nClaimed++
+	} else {
+		nUnclaimed++
+	}
+	return lib.App("V", lib.Bool(claimed), coq)
+}
+
+type snap struct {
+	rev  int64
+	keys [][]byte
+}
+
 type plan struct {
 	kind     string
 	fixed    []interface{} // Txn or Rng, executed in order (fixed corpus)
@@ -807,6 +825,33 @@ func runHistory(s *sut, w *lib.Writer, idx int, rnd *lib.Rand, pl plan) {
 	outcomes := map[string]bool{}
 	var seenRevs []int64
 	failed := ""
+	// the claim of validity: every request in the scope of C16_supported as far as the client can tell
+	claim := pl.fixed == nil
+	closedByExecuted := false
+	var snaps []snap
+	keysAt := func(rev int64, a, b []byte) int {
+		var ks [][]byte
+		if rev == 0 {
+			for k, m := range g.cur {
+				if m != 0 {
+					ks = append(ks, []byte(k))
+				}
+			}
+		} else {
+			for _, sn := range snaps {
+				if sn.rev <= rev {
+					ks = sn.keys
+				}
+			}
+		}
+		n := 0
+		for _, k := range ks {
+			if bytes.Compare(a, k) <= 0 && bytes.Compare(k, b) < 0 {
+				n++
+			}
+		}
+		return n
+	}
 
 	var mw *memWatch
 	var wdone chan error
@@ -822,7 +867,34 @@ func runHistory(s *sut, w *lib.Writer, idx int, rnd *lib.Rand, pl plan) {
 	}
 
 	doTxn := func(t Txn, label string) {
+		now := int64(s.be.GetCurrentRevision())
+		switch label {
+		case "create", "sentinel":
+		case "update":
+			if e := t.Cmp[0].Num; e < 0 || e > now {
+				claim = false
+			}
+		case "delete":
+			if e := t.Cmp[0].Num; e <= 0 || e > now {
+				claim = false
+			}
+		case "delete-unguarded":
+			if g.cur[string(t.Succ[1].D.Key)] == 0 {
+				claim = false
+			}
+		default:
+			if !(pl.mutated && strings.HasPrefix(label, "mut-")) {
+				claim = false
+			}
+		}
 		resp, err, settled := s.txn(t)
+		if pl.mutated && strings.HasPrefix(label, "mut-") {
+			// the closing transaction of a mutated history: any structurally valid transaction (c16_validb's third class:
+			// the verdict is agreement or a listed code); full strength when it was rejected
+			if err == nil {
+				closedByExecuted = true
+			}
+		}
 		if !settled {
 			failed = "revision did not settle after " + label
 		}
@@ -855,9 +927,25 @@ func runHistory(s *sut, w *lib.Writer, idx int, rnd *lib.Rand, pl plan) {
 				g.seen[string(kv.Key)] = append(g.seen[string(kv.Key)], kv.ModRevision)
 			}
 			g.cur = nc
+			var ks [][]byte
+			for _, kv := range lst.Kvs {
+				ks = append(ks, kv.Key)
+			}
+			snaps = append(snaps, snap{rev: hdr(lst.Header), keys: ks})
+		} else {
+			claim = false
 		}
 	}
 	doRange := func(r Rng, label string) {
+		switch label {
+		case "get", "count":
+		case "list":
+			if r.Rev == 1888 || (r.Limit > 0 && int64(keysAt(r.Rev, r.Key, r.End)) > r.Limit+1) {
+				claim = false
+			}
+		default:
+			claim = false
+		}
 		resp, err := s.rng(r)
 		oc := "RErr"
 		class := "error"
@@ -881,6 +969,8 @@ func runHistory(s *sut, w *lib.Writer, idx int, rnd *lib.Rand, pl plan) {
 				doTxn(x(ns), "fixed")
 			case func(ns []byte) Rng:
 				doRange(x(ns), "fixed")
+			case func(ns []byte, seen []int64) Rng:
+				doRange(x(ns, seenRevs), "fixed")
 			}
 		}
 	} else {
@@ -907,7 +997,7 @@ func runHistory(s *sut, w *lib.Writer, idx int, rnd *lib.Rand, pl plan) {
 		}
 	}
 
-	watchCoq, watch2Coq := "[]", "None"
+	watchCoq, watch2Coq := "None", "None"
 	nEvents := 0
 	if pl.watch && failed == "" {
 		id0, _ := createdID(mw.snapshot(), 0)
@@ -941,6 +1031,7 @@ func runHistory(s *sut, w *lib.Writer, idx int, rnd *lib.Rand, pl plan) {
 		}
 		snap := mw.snapshot()
 		watchCoq, nEvents = eventsCoq(snap, id0)
+		watchCoq = lib.Some(watchCoq)
 		if pl.watchRev && startRev != 0 {
 			id1, _ := createdID(snap, 1)
 			c, _ := eventsCoq(snap, id1)
@@ -960,7 +1051,10 @@ func runHistory(s *sut, w *lib.Writer, idx int, rnd *lib.Rand, pl plan) {
 	for k := range outcomes {
 		ocs = append(ocs, k)
 	}
-	cs := lib.Case{Kind: pl.kind, Coq: lib.App("C16Hist", lib.N(base), lib.Bytes(ns), lib.List(steps), watchCoq, watch2Coq),
+	if claim && failed == "" && closedByExecuted {
+		nListed++
+	}
+	cs := lib.Case{Kind: pl.kind, Coq: vcase(claim && failed == "", lib.App("C16Hist", lib.N(base), lib.Bytes(ns), lib.List(steps), watchCoq, watch2Coq)),
 		JSON:    map[string]interface{}{"ns": string(ns), "base": base, "steps": js, "events": nEvents},
 		Trivial: len(steps) < 2, Outcomes: ocs}
 	w.Add(cs)
@@ -983,6 +1077,13 @@ func corpus() []plan {
 		{kind: "corpus-F2-guarded-delete-rev0-existing", watch: true, fixed: []interface{}{
 			T(func(ns []byte) Txn { return shapeCreate(K(ns, "a"), []byte("v")) }),
 			T(func(ns []byte) Txn { return shapeDelete(K(ns, "a"), 0) }), all}},
+		{kind: "corpus-F9-count-at-revision", fixed: []interface{}{
+			T(func(ns []byte) Txn { return shapeCreate(K(ns, "a"), []byte("1")) }),
+			T(func(ns []byte) Txn { return shapeCreate(K(ns, "b"), []byte("2")) }),
+			// a count as of the first create: etcd counts the store at that revision (1), the Count path ignores the revision (2)
+			interface{}(func(ns []byte, seen []int64) Rng {
+				return Rng{Key: ns, End: prefixEnd(ns), CountOnly: true, Rev: seen[0]}
+			}), all}},
 		{kind: "corpus-F3-count-under-limit", fixed: []interface{}{
 			T(func(ns []byte) Txn { return shapeCreate(K(ns, "a"), []byte("1")) }),
 			T(func(ns []byte) Txn { return shapeCreate(K(ns, "b"), []byte("2")) }),
@@ -1127,7 +1228,7 @@ func runProxyWatch(s *sut, w *lib.Writer, idx int) {
 	case <-time.After(3 * time.Second):
 		failed = "follower watch stream did not end"
 	}
-	cs := lib.Case{Kind: "corpus-proxy-follower-watch", Coq: lib.App("C16Hist", lib.N(base), lib.Bytes(ns), lib.List(steps), "[]", lib.Some(lib.Pair(lib.Z(startRev), watchCoq))),
+	cs := lib.Case{Kind: "corpus-proxy-follower-watch", Coq: vcase(failed == "", lib.App("C16Hist", lib.N(base), lib.Bytes(ns), lib.List(steps), "None", lib.Some(lib.Pair(lib.Z(startRev), watchCoq)))),
 		JSON: map[string]interface{}{"ns": string(ns), "base": base, "steps": js, "events_through_follower": evj, "n": nEvents}, Outcomes: []string{"proxy-watch"}}
 	w.Add(cs)
 	if failed != "" {
@@ -1230,7 +1331,7 @@ func runBacklog(s *sut, w *lib.Writer, idx int) {
 	case <-time.After(2 * time.Second):
 		// a watch stuck inside the backend keeps its goroutine; the stream itself is gone
 	}
-	cs := lib.Case{Kind: "corpus-backlog-catch-up", Coq: lib.App("C16Backlog", lib.N(uint64(len(writes))), lib.N(uint64(delivered)), lib.Bool(ordered)),
+	cs := lib.Case{Kind: "corpus-backlog-catch-up", Coq: vcase(true, lib.App("C16Backlog", lib.N(uint64(len(writes))), lib.N(uint64(delivered)), lib.Bool(ordered))),
 		JSON: map[string]interface{}{"ns": string(ns), "writes": len(writes), "delivered": delivered, "ordered": ordered, "first_divergence": firstBad,
 			"scenario": "prefix watch resumed from the first of 30051 writes of one key (backlog from the event cache)"}, Outcomes: []string{"backlog"}}
 	w.Add(cs)
@@ -1329,15 +1430,14 @@ func runRace(w *lib.Writer, args lib.Args) {
 		wg.Wait()
 		return succ, answers
 	}
-	maxC, maxU := 0, 0
+	// reported: the number of Succeeded=true answers of the first round that did not have exactly one (creates, updates);
+	// 1 and 1 when every round had exactly one winner of each race
+	maxC, maxU := 1, 1
 	var detail interface{}
 	done := 0
 	for r := 0; r < rounds; r++ {
 		k := []byte(fmt.Sprintf("/registry/race/k%05d", r))
 		c, ca := race(func(i int) Txn { return shapeCreate(k, []byte(fmt.Sprintf("c%d", i))) })
-		if c > maxC {
-			maxC = c
-		}
 		ctx, cancel := context.WithTimeout(context.Background(), 5*time.Second)
 		lib.WaitUntil(time.Second, func() bool { g, e := srv.Range(ctx, &etcdserverpb.RangeRequest{Key: k}); return e == nil && len(g.Kvs) == 1 })
 		g, gerr := srv.Range(ctx, &etcdserverpb.RangeRequest{Key: k})
@@ -1347,18 +1447,16 @@ func runRace(w *lib.Writer, args lib.Args) {
 		if gerr == nil && len(g.Kvs) == 1 {
 			rev := g.Kvs[0].ModRevision
 			u, ua = race(func(i int) Txn { return shapeUpdate(k, []byte(fmt.Sprintf("u%d", i)), rev) })
-			if u > maxU {
-				maxU = u
-			}
 		}
 		done++
-		if c > 1 || u > 1 {
+		if c != 1 || u != 1 {
+			maxC, maxU = c, u
 			detail = map[string]interface{}{"round": r, "key": string(k), "create_answers": ca, "update_answers": ua}
 			break
 		}
 	}
-	cs := lib.Case{Kind: "badger-race", Coq: lib.App("C16Race", lib.N(clients), lib.N(uint64(done)), lib.N(uint64(maxC)), lib.N(uint64(maxU))),
-		JSON: map[string]interface{}{"engine": "badger", "clients": clients, "rounds": done, "max_succeeded_creates_in_a_round": maxC, "max_succeeded_updates_in_a_round": maxU, "first_violation": detail},
+	cs := lib.Case{Kind: "badger-race", Coq: vcase(true, lib.App("C16Race", lib.N(clients), lib.N(uint64(done)), lib.N(uint64(maxC)), lib.N(uint64(maxU)))),
+		JSON: map[string]interface{}{"engine": "badger", "clients": clients, "rounds": done, "succeeded_creates_in_the_reported_round": maxC, "succeeded_updates_in_the_reported_round": maxU, "first_violation": detail},
 		Outcomes: []string{"race"}}
 	w.Add(cs)
 }
@@ -1435,7 +1533,7 @@ func runGated(s *sut, w *lib.Writer, idx int, deleteFirst bool) {
 	if deleteFirst {
 		kind = "corpus-gated-stale-after-delete"
 	}
-	cs := lib.Case{Kind: kind, Coq: lib.App("C16Hist", lib.N(base), lib.Bytes(ns), lib.List(steps), "[]", "None"),
+	cs := lib.Case{Kind: kind, Coq: vcase(failed == "", lib.App("C16Hist", lib.N(base), lib.Bytes(ns), lib.List(steps), "None", "None")),
 		JSON: map[string]interface{}{"ns": string(ns), "base": base, "steps": js, "committed_while_held": committedDuring}, Outcomes: []string{"gated"}}
 	w.Add(cs)
 	if failed != "" {
@@ -1514,7 +1612,7 @@ func runBurst(s *sut, w *lib.Writer, idx int) {
 	case <-time.After(3 * time.Second):
 		failed = "watch stream did not end"
 	}
-	cs := lib.Case{Kind: "corpus-burst-full-batch", Coq: lib.App("C16Hist", lib.N(base), lib.Bytes(ns), lib.List(steps), watchCoq, "None"),
+	cs := lib.Case{Kind: "corpus-burst-full-batch", Coq: vcase(failed == "", lib.App("C16Hist", lib.N(base), lib.Bytes(ns), lib.List(steps), lib.Some(watchCoq), "None")),
 		JSON: map[string]interface{}{"ns": string(ns), "base": base, "creates": n + 1, "events": nEvents, "scenario": "stalled watch client, one write parked with eventBatchSize+50 writes behind it"},
 		Outcomes: []string{"burst"}}
 	w.Add(cs)
@@ -1550,7 +1648,7 @@ func main() {
 	case "search":
 		nSup, nMut = 900, 4000
 	}
-	w := lib.NewWriter(args, "C16", "c16", "From KB Require Import Model.C16Cases.", "c16_case", "c16_check", "c16_oracle", 170)
+	w := lib.NewWriter(args, "C16", "c16", "From KB Require Import Model.C16Cases.", "c16_vcase", "c16_checkv", "c16_oraclev", 170)
 	s, err := newSut(args.Scratch, 10)
 	if err != nil {
 		fmt.Fprintln(os.Stderr, err)
@@ -1586,6 +1684,11 @@ func main() {
 		func(ns []byte) Rng { return Rng{Key: ns, End: prefixEnd(ns), Rev: 1888} },
 		func(ns []byte) Rng { return Rng{Key: ns, End: prefixEnd(ns), Rev: 1887} }}})
 	idx++
+	w.Stats.Extra["invalid_cases"] = nUnclaimed
+	w.Stats.Extra["valid_cases"] = nClaimed
+	w.Stats.Extra["valid_cases_full_strength"] = nClaimed - nListed
+	w.Stats.Extra["valid_cases_agreement_or_listed_code"] = nListed
+	w.Stats.Extra["invalid_cases_how"] = "the driver claims validity per case (V true c) when every request is in the scope of C16_supported as far as the client can tell (full strength: C16_oracle_sound), or when such a prefix is closed by one mutated transaction (agreement or a listed code: C16_oracle_listed); c16_checkv evaluates c16_validb and the watch headers on claimed cases, so a wrong claim is a mismatch; unclaimed cases (the findings' corpus, random histories containing a finding's signature before their last step) are judged by the oracle and, per step, by C16_unsupported / C16_recognised_executed_as"
 	if err := w.Finish("histories of the Kubernetes shapes over 3-5 keys per private key space (expected revision correct/stale/zero), reads with sub-ranges, limits and seen revisions, one prefix watch per supported history (every third with a second watch from a seen revision); mutated transactions = one structural mutation of a supported shape after a short supported prefix; distinct = SHA-256 of the Coq case; trivial = fewer than 2 steps"); err != nil {
 		fmt.Fprintln(os.Stderr, err)
 		os.Exit(2)
